@@ -203,9 +203,71 @@ let c19tls line =
     end in
   if !miss then "ORACLE-MISS" else "res=" ^ r
 
+(* --------------------------------------------------------------------- c18 *)
+(* case: lim=<L>;tr=<ms>;to=<ms>;conns=<acc><client>,...;ops=<tok>.<tok>...;oracle=hs0=PPD,hs1=PF
+   ops: R[o] poll_ready, C<k> call, P<k> poll, D<k> drop, A<ms> advance; S/G/X/E<k> are moves of the client / the
+   data exchange: not part of the model (no output).  Waker ids are op positions. *)
+let n_of_int n = if n = 0 then N0 else Npos (pos_of_int n)
+let int_of_n = function N0 -> 0 | Npos p -> int_of_pos p
+
+let c18 line =
+  let lim = int_of_string (field_d line "lim" "1") in
+  let tr = int_of_string (field_d line "tr" "3000") and to_ = int_of_string (field_d line "to" "3000") in
+  let conns = Array.of_list (split ',' (field_d line "conns" "")) in
+  let oracle = split ',' (field_d line "oracle" "") in
+  let script k =
+    let key = Printf.sprintf "hs%d=" k in
+    match List.find_opt (starts_with key) oracle with
+    | None -> []
+    | Some e -> List.map (function 'P' -> HPending | 'D' -> HDone | 'F' -> HFailed N0 | _ -> HFailed (n_of_int 99))
+                  (chars (after key e)) in
+  let ops = split '.' (field_d line "ops" "") in
+  let st = ref (init (n_of_int lim)) in
+  let out = ref [] in
+  List.iteri (fun idx tok ->
+      let kind = tok.[0] and arg = String.sub tok 1 (String.length tok - 1) in
+      let k = try int_of_string arg with _ -> 0 in
+      let mop = match kind with
+        | 'R' -> Some (PollReady (nat_of_int idx))
+        | 'C' -> Some (Call (nat_of_int k, script k, n_of_int (if conns.(k).[0] = 'r' then tr else to_)))
+        | 'P' -> Some (PollFut (nat_of_int k, nat_of_int idx))
+        | 'D' -> Some (DropFut (nat_of_int k))
+        | 'A' -> Some (Advance (n_of_int k))
+        | _ -> None in
+      match mop with
+      | None -> ()
+      | Some o ->
+        let (s', obs) = step !st o in
+        st := s';
+        let wakes = List.sort compare (List.filter_map (function ObsWake w -> Some (int_of_nat w) | _ -> None) obs) in
+        let wakes = List.sort_uniq compare wakes in
+        let misuse = List.exists (function ObsMisuse _ -> true | _ -> false) obs in
+        let body = match kind with
+          | 'R' -> Printf.sprintf "R%s:%s" arg (if List.mem (ObsReady true) obs then "1" else "0")
+          | 'C' -> if misuse then Printf.sprintf "C%d:misuse" k else Printf.sprintf "C%d" k
+          | 'P' ->
+            if misuse then Printf.sprintf "P%d:misuse" k
+            else begin
+              let h = List.exists (function ObsHs _ -> true | _ -> false) obs in
+              let r = List.find_map (function
+                  | ObsPoll (_, Pending) -> Some "pend"
+                  | ObsPoll (_, Ready OOk) -> Some "ok"
+                  | ObsPoll (_, Ready (OTls _)) -> Some "tls"
+                  | ObsPoll (_, Ready OTimeout) -> Some "to"
+                  | _ -> None) obs in
+              Printf.sprintf "P%d:%s/h%d" k (match r with Some r -> r | None -> "?") (if h then 1 else 0)
+            end
+          | 'D' -> Printf.sprintf "D%d" k
+          | _ -> Printf.sprintf "A%d" k in
+        let body = if wakes = [] then body
+          else body ^ "+" ^ String.concat "," (List.map (fun w -> Printf.sprintf "w%d" w) wakes) in
+        out := body :: !out) ops;
+  String.concat " " (List.rev !out)
+
 let () =
   let f = match Sys.argv.(1) with
     | "c19host" -> c19host | "c19info" -> c19info | "c19conn" -> c19conn | "c19tls" -> c19tls
+    | "c18" -> c18
     | m -> failwith ("unknown mode " ^ m) in
   try while true do
     let line = input_line stdin in
